@@ -833,6 +833,15 @@ class Hist:
     def do_add_boundary(self, a, op, env):
         kw = {k2: op[k] for k, k2 in (("rid", "reaction_id"), ("lb", "lb"), ("ub", "ub"), ("sbo", "sbo_term"))
               if op.get(k) is not None}
+        if op.get("new_met") and not a.model.metabolites.has_id(op["m"]):
+            mt = _mk_met(dict(op["new_met"], id=op["m"]))
+            self.stats["probe:add_boundary_for_a_metabolite_new_to_the_model"] += 1
+            try:
+                a.model.add_boundary(mt, type=op["type"], **kw)
+            finally:
+                if mt._model is a.model and not a.model.metabolites.has_id(mt.id):
+                    raise Violation("xref", {"what": "a metabolite that add_boundary refused points at the model"}, culprit=op)
+            return
         a.model.add_boundary(self.met(a, op["m"]), type=op["type"], **kw)
 
     def _mk_rxn(self, a, s):
@@ -1891,6 +1900,10 @@ def gen_op(rng, H, sw):
     elif k == "add_boundary":
         typ = rng.choice(["exchange", "demand", "sink", "custom"])
         op.update(m=mid(), type=typ)
+        if rng.random() < 0.15:
+            nm = new_met()
+            nm.pop("t")
+            op.update(m=nm.pop("id"), new_met=nm)
         if typ == "custom" and not inv:
             op.update(rid=_fresh("BND", ref.rxns, rng), lb=rng.choice([None, -10, 0]), ub=rng.choice([None, 10, 1000]))
         if rng.random() < 0.3:
